@@ -7,6 +7,7 @@ import (
 	"errors"
 	"fmt"
 	"io"
+	"mime"
 	"net"
 	"net/http"
 	"slices"
@@ -414,6 +415,7 @@ func tlaTuples(ts [][]int) string {
 }
 
 func checkC14(r *Run) {
+	runHelperBodies(r)
 	maxCalls := pick(r, 3, 6)
 	var total, totalEdges atomic.Int64
 	for _, v := range writerVariants {
@@ -518,3 +520,47 @@ GenRedirectCodes == {100, 101, 199, 201, 202, 204, 206, 226, 298, 310, 399, 400,
 }
 
 func init() { register("C14", checkC14) }
+
+// The Context helpers send exactly the bytes they are given (C14, last sentence): the model prescribes sizes; the
+// contents are compared here, through a real request, for formats with and without operands.
+func runHelperBodies(r *Run) {
+	type hcase struct {
+		name string
+		call func(c fox.Context) error
+		want string
+		ct   string
+	}
+	blob := []byte{0, 1, 2, '%', 's', 0xff, '\n'}
+	cases := []hcase{
+		{"String plain", func(c fox.Context) error { return c.String(200, "hello") }, "hello", "text/plain"},
+		{"String with an escaped percent and no operand", func(c fox.Context) error { return c.String(200, "100%% done") }, "100% done", "text/plain"},
+		{"String with a verb and no operand", func(c fox.Context) error { return c.String(200, "n=%d") }, "n=%!d(MISSING)", "text/plain"},
+		{"String with operands", func(c fox.Context) error { return c.String(201, "%s=%d %v%%", "k", 7, true) }, "k=7 true%", "text/plain"},
+		{"String with a surplus operand", func(c fox.Context) error { return c.String(200, "x", 1) }, "x%!(EXTRA int=1)", "text/plain"},
+		{"Blob", func(c fox.Context) error { return c.Blob(202, "application/x-test", blob) }, string(blob), "application/x-test"},
+		{"Stream", func(c fox.Context) error { return c.Stream(203, "application/x-test", strings.NewReader("a%sb%%c")) }, "a%sb%%c", "application/x-test"},
+		{"Blob, empty", func(c fox.Context) error { return c.Blob(204, "application/x-test", nil) }, "", "application/x-test"},
+	}
+	for _, hc := range cases {
+		detail := func() map[string]any { return map[string]any{"family": "helper-bodies", "helper": hc.name} }
+		r.guard("context helper", detail, func() {
+			rt, err := fox.New()
+			if err != nil {
+				failTool("fox.New: %v", err)
+			}
+			var herr error
+			rt.MustHandle("GET", "/h", func(c fox.Context) { herr = hc.call(c) })
+			req, _ := newRequest("GET", "", "/h", "")
+			w := newPlainWriter()
+			rt.ServeHTTP(w, req)
+			r.addCov("helper_bodies_compared", 1)
+			mt, _, _ := mime.ParseMediaType(w.h.Get("Content-Type"))
+			if herr != nil || string(w.body) != hc.want || mt != hc.ct {
+				d := detail()
+				d["prescribed"] = map[string]any{"body": hc.want, "content_type": hc.ct}
+				d["obtained"] = map[string]any{"body": string(w.body), "content_type": w.h.Get("Content-Type"), "error": fmt.Sprint(herr)}
+				r.violation(fmt.Sprintf("writer helper=%s sends other bytes than it was given", hc.name), d)
+			}
+		})
+	}
+}
